@@ -170,6 +170,11 @@ Definition mgs_upper (lb nnumbers : nat) : nat := Nat.max (lb + 1) (nnumbers + 2
    len(initial_numbers) + sum(len(c) - 1 for c in partition_constraints); everywhere below the parameter
    called nnumbers / nweights is this size *)
 Definition mgs_size (ninitial extra_cuts : nat) : nat := ninitial + extra_cuts.
+(* since /repo 2a5d8e1 the search starts at first_k = max(1, lowerbound) (a lower bound below 1 must not start with the
+   empty model k = 0) and the +1 of the upper end refers to first_k: run_mgs (the stand-alone MinGenSet.solve) hands mgs_first lb to
+   mgs_solve, whose theorems hold for every start; lb_phase is called by MinFlowDecomp[Cycles] with lower bounds >= 1, for
+   which mgs_first is the identity *)
+Definition mgs_first (lb : nat) : nat := Nat.max 1 lb.
 Definition mgs_range (lb nnumbers : nat) : list nat := krange lb (mgs_upper lb nnumbers).
 
 Definition mgs_solve (mgs_skips : bool) (lb nnumbers : nat) (sts : list raw) : outcome :=
@@ -381,7 +386,7 @@ Definition run_wrapper (alarm_route : bool) (xs : list swrun) : list (option sta
   let rt := if alarm_route then WithAlarm else Direct in
   (* status reported after each run of a history on one wrapper *)
   map (fun i => sw_status (sw_runs rt None (firstn (S i) xs))) (seq 0 (length xs)).
-Definition run_mgs (skips : bool) (lb n cuts : nat) (sts : list raw) : outcome := mgs_solve skips lb (mgs_size n cuts) sts.
+Definition run_mgs (skips : bool) (lb n cuts : nat) (sts : list raw) : outcome := mgs_solve skips (mgs_first lb) (mgs_size n cuts) sts.
 Definition run_mfd (skips exits excl : bool) (lb0 ne : nat) (umgs : bool) (nw cuts : nat) (gu : bool) (gw : nat)
   (gr : list bool) (sts : list raw) : outcome :=
   mfd_solve skips exits (mkfd lb0 excl ne umgs (mgs_size nw cuts) gu gw (of_list gr) never) sts.
